@@ -24,6 +24,7 @@ import (
 	"errors"
 	"fmt"
 	"io"
+	"os"
 	"strings"
 	"testing"
 
@@ -32,6 +33,7 @@ import (
 	"github.com/nspcc-dev/neofs-node/verifharness/ev"
 	"github.com/nspcc-dev/neofs-node/verifharness/genobj"
 	"github.com/nspcc-dev/neofs-node/verifharness/gensign"
+	"github.com/nspcc-dev/neofs-node/verifharness/stor"
 	"github.com/nspcc-dev/neofs-sdk-go/client"
 	apistatus "github.com/nspcc-dev/neofs-sdk-go/client/status"
 	cid "github.com/nspcc-dev/neofs-sdk-go/container/id"
@@ -810,6 +812,99 @@ func vc23KnownClass(lay *vc23Layout, linkMode string, q vc23Query, off, ln uint6
 		}
 	}
 	return ""
+}
+
+// TestVerifC23Engine repeats the split check with the REAL storage engine as the
+// local storage (WithLocalStorageEngine): split info comes from the metabase,
+// ranges are cut by FSTree. It confirms that the in-memory fakes of
+// TestVerifC23Split behave like the engine (same oracle, fewer cases).
+func TestVerifC23Engine(t *testing.T) {
+	rec := ev.New("C23", "engine")
+	defer rec.Flush()
+	rapid.Check(t, func(t *rapid.T) {
+		limit := rapid.IntRange(1, 64).Draw(t, "limit")
+		if rapid.IntRange(0, 2).Draw(t, "bigLimit") == 0 {
+			limit = rapid.IntRange(1<<10, 4<<10).Draw(t, "limitBig")
+		}
+		n := max(0, limit*rapid.IntRange(1, 6).Draw(t, "k")+rapid.IntRange(-2, 2).Draw(t, "d"))
+		if rapid.IntRange(0, 7).Draw(t, "small") == 0 {
+			n = rapid.IntRange(0, limit).Draw(t, "lenSmall")
+		}
+		payload := genobj.Fill(rapid.Uint64().Draw(t, "seed"), n)
+		var sizes []int
+		for left := n; left > 0; left -= min(left, limit) {
+			sizes = append(sizes, min(left, limit))
+		}
+		var lay *vc23Layout
+		var err error
+		ver := rapid.IntRange(1, 2).Draw(t, "ver")
+		switch {
+		case len(sizes) < 2:
+			lay, err = vc23Slice(payload, uint64(max(limit, n, 1)), 1)
+		case ver == 2 && limit >= 1<<10:
+			lay, err = vc23Slice(payload, uint64(limit), 1)
+		default:
+			lay, err = vc23Handmade(ver, payload, sizes, 1)
+		}
+		if err != nil {
+			t.Fatalf("build layout: %v", err)
+		}
+
+		dir, err := os.MkdirTemp("", "c23eng")
+		if err != nil {
+			ev.Inconclusive("mkdir temp: %v", err)
+		}
+		defer os.RemoveAll(dir)
+		eng, err := stor.OpenEngine([]stor.ShardCfg{{Dir: dir}})
+		if err != nil {
+			ev.Inconclusive("open engine: %v", err)
+		}
+		defer eng.E.Close()
+
+		linkMode := "n/a"
+		for _, c := range lay.children {
+			if err := eng.E.Put(context.Background(), c, nil); err != nil {
+				t.Fatalf("engine put child: %v", err)
+			}
+		}
+		if lay.link != nil {
+			linkMode = rapid.SampledFrom([]string{"link+last", "last-only"}).Draw(t, "linkMode")
+			if linkMode == "link+last" {
+				if err := eng.E.Put(context.Background(), lay.link, nil); err != nil {
+					t.Fatalf("engine put link: %v", err)
+				}
+			}
+		}
+
+		self := vc23NodeInfo(1)
+		svc := New(&vc23Net{lists: [][]netmap.NodeInfo{{self}}, rep: []uint{1}, local: self.PublicKey()},
+			WithLocalStorageEngine(eng.E), WithLogger(zap.NewNop()))
+		svc.clientCache = vc23Clients{}
+		svc.keyStore = &mockKeyStorage{privKey: *gensign.Key(5)}
+
+		addr := oid.NewAddress(vc23Cnr, lay.parent.GetID())
+		nq := rapid.IntRange(1, 6).Draw(t, "nq")
+		for i := 0; i < nq; i++ {
+			q := vc23GenQuery(t, uint64(n), lay.bounds)
+			off, ln, oor := vc23Expect(q, uint64(n))
+			cross := 0
+			if !oor {
+				cross = vc23Crossings(off, ln, lay.bounds)
+			}
+			labels := []string{"kind:" + lay.kind, "api:" + q.API, "link:" + linkMode}
+			if cross > 0 {
+				labels = append(labels, "crosses-boundary")
+			}
+			rec.Case(cross > 0, fmt.Sprintf("%s|%v|%s|%s", lay.kind, lay.bounds, linkMode, q), labels...)
+			w, err := vc23Run(svc, addr, q)
+			if msg := vc23Check(q, w, err, payload, lay.parent); msg != "" {
+				if fp := vc23KnownClass(lay, linkMode, q, off, ln, oor, w, err); fp != "" && rec.Known(fp) {
+					continue
+				}
+				t.Fatalf("C23 violation (real engine): %s\nlayout=%s children=%v link=%s\nquery=%s", msg, lay.kind, vc23ChildSizes(lay), linkMode, q)
+			}
+		}
+	})
 }
 
 // ---------------------------------------------------------------------------
